@@ -9,8 +9,18 @@ macro_rules! cfg {
     }};
 }
 
+macro_rules! cfg_huge {
+    ($run:expr, $fam:ident, $n:literal, $z:ty) => {{
+        // the widest configurations of the quantifier (8192 bits): dense and sparse values, small plan
+        $run.explore(&t::$fam::u::<$n, $z>(), &plans::hugeify(plans::panic_plan::<$fam::U<$n>>(Tier::Quick), 20, 8));
+        $run.explore(&t::$fam::i::<$n, $z>(), &plans::hugeify(plans::panic_plan::<$fam::I<$n>>(Tier::Quick), 20, 8));
+    }};
+}
+
 fn main() {
     let mut run = Run::from_args("C04", "c04");
     vcore::core_configs!(cfg, run);
+    cfg_huge!(run, d8, 1024, BigRef);
+    cfg_huge!(run, d64, 128, BigRef);
     std::process::exit(run.finish());
 }
